@@ -979,7 +979,14 @@ pub fn gen_valid_tx(rng: &mut Rng, f: &Features, spec: SpecId, world: &World, bl
             h[31] = i as u8;
             t.blob_hashes.push(B256::from(h));
         }
-        t.max_fee_per_blob_gas = Some(U256::from(1u64) << 100);
+        // a cap the sender can pay: the current blob gas price times 1, 2, 1000, or price + 1
+        let price = crate::refevm::blob_price(spec, block.excess_blob_gas);
+        t.max_fee_per_blob_gas = Some(match rng.below(4) {
+            0 => price,
+            1 => price + U256::from(1u8),
+            2 => price * U256::from(2u8),
+            _ => price * U256::from(1000u64),
+        });
         if t.priority_fee.is_none() {
             t.priority_fee = Some(U256::ZERO);
         }
